@@ -1425,6 +1425,34 @@ inline std::string qstr (const std::string& s)
     return o + "\"";
 }
 
+// Magnitude variants of a generic tuple for the stream tests: mag 0 = as is; mag 1 = large values of alternating
+// sign (wider than any field width an inserter might assume: >= 10^5 for floating types, near the type's extremes
+// for integers); mag 2 = tiny values (floating types only; returns false for integers). What is printed is compared
+// with the same value printed alone, so the values need not be exact.
+template <class T> inline bool stream_magnitude (int mag, int n, T* v)
+{
+    if (mag == 0) return true;
+    if (std::numeric_limits<T>::is_integer)
+    {
+        if (mag != 1) return false;
+        for (int k = 0; k < n; ++k)
+        {
+            T big = (T) (std::numeric_limits<T>::max () / 2 - v[k]);
+            v[k]  = (std::numeric_limits<T>::is_signed && (k & 1)) ? (T) (-big) : big;
+        }
+        return true;
+    }
+    const double f = mag == 1 ? (sizeof (T) == 2 ? 100.0 : 1.0e5) : (mag == 2 ? 1.0e-7 : 1.0e12);
+    if (mag == 3 && sizeof (T) == 2) return false;
+    if (mag > 3) return false;
+    for (int k = 0; k < n; ++k)
+    {
+        double x = (double) v[k] * f + (mag == 1 ? 0.5 : 0.0);
+        v[k]     = (T) ((k & 1) ? -x : x);
+    }
+    return true;
+}
+
 template <class A> void stream_test (Tally& t)
 {
     typedef typename Agg<A>::E T;
@@ -1435,10 +1463,14 @@ template <class A> void stream_test (Tally& t)
     for (const StreamState& st : stream_states ())
         for (int g = 0; g < NGENERIC; ++g)
             for (int pass = 0; pass < 2; ++pass)
+            for (int mag = 0; mag < 4; ++mag)
             {
                 if (g == 1 && pass == 1) continue; // repeats g=0's a-tuple
                 generic_tuple<T> (g, N, ga, gb);
-                const T* v = pass ? gb : ga;
+                T vm[N];
+                for (int k = 0; k < N; ++k) vm[k] = pass ? gb[k] : ga[k];
+                if (!stream_magnitude<T> (mag, N, vm)) continue;
+                const T* v = vm;
                 A        a = make<A> (v);
                 std::ostringstream os;
                 st.apply (os);
